@@ -508,6 +508,9 @@ func (ex *Exec) specCall(sc *Scope, e *ast.CallExpr) Val {
 			}
 		}
 		sort.Strings(cs)
+		if len(cs) == 0 {
+			return Bool{smt.False} // a path that read nothing through a scanner has not "passed all lines"
+		}
 		return Bool{smt.And(cs...)}
 	case "HV":
 		hv, ok := sc.St.Ghost["HV"]
